@@ -644,6 +644,68 @@ func (a *actx) flattenObj(o *aobj, out *[]aref, why *[]string) {
 	}
 }
 
+// shapeText renders a value canonically (types, fields in struct order, references, position
+// combinators): two actions with the same shape build the same tree from the same right-hand side
+func (a *actx) shapeText(v *aval, depth int) string {
+	if v == nil {
+		return "_"
+	}
+	if depth > 12 {
+		return "…"
+	}
+	switch v.kind {
+	case "ref":
+		if v.ref.Comp == 0 {
+			return fmt.Sprintf("$%d", v.ref.I)
+		}
+		f := "?"
+		if si := a.structs[v.typ]; si != nil && v.ref.Comp-1 < len(si.fields) {
+			f = si.fields[v.ref.Comp-1]
+		}
+		return fmt.Sprintf("$%d.(%s).%s", v.ref.I, v.typ, f)
+	case "cast":
+		return a.shapeText(v.base, depth+1) + ".(" + v.typ + ")"
+	case "cur":
+		return "cur"
+	case "nil":
+		return "nil"
+	case "val":
+		return "val"
+	case "posval":
+		return "posval"
+	case "pos":
+		var as []string
+		for _, x := range v.pos.args {
+			as = append(as, a.shapeText(x, depth+1))
+		}
+		return v.pos.comb + "(" + strings.Join(as, ",") + ")"
+	case "list", "append":
+		var es []string
+		for _, e := range v.elems {
+			es = append(es, a.shapeText(e, depth+1))
+		}
+		if v.kind == "append" {
+			return "append(" + a.shapeText(v.base, depth+1) + ";" + strings.Join(es, ",") + ")"
+		}
+		return "[" + strings.Join(es, ",") + "]"
+	case "obj":
+		o := v.obj
+		var fs []string
+		if o.pos != nil {
+			fs = append(fs, "Position:"+a.shapeText(&aval{kind: "pos", pos: o.pos}, depth+1))
+		}
+		if si := a.structs[o.typ]; si != nil {
+			for _, f := range si.fields {
+				if fv, ok := o.fields[f]; ok {
+					fs = append(fs, f+":"+a.shapeText(fv, depth+1))
+				}
+			}
+		}
+		return o.typ + "{" + strings.Join(fs, ";") + "}"
+	}
+	return "?" + v.kind
+}
+
 func refStr(r aref) string { return fmt.Sprintf("(%d, %d)", r.I, r.Comp) }
 
 func refsStr(rs []aref) string {
@@ -682,6 +744,7 @@ type pathSummary struct {
 	Why    []string `json:"why,omitempty"`
 	Used   []aref   `json:"used"`
 	Line   int      `json:"line"`
+	Shape  string   `json:"shape"`
 	Lean   string   `json:"-"`
 }
 
@@ -1112,8 +1175,14 @@ func genActions(c *ctx, s *schema, which string, g *ygrammar, gf *ast.File) {
 			sum.Kind = kind
 			sum.Why = why
 			sum.Used = used
-			row := fmt.Sprintf("{ prod := %d, path := %d, n := %d, kind := %d, objs := [%s], used := %s, need := %s, exempt := [%s], mutPos := [%s] }",
-				pn, pi, a.n, kind, strings.Join(objRows, ", "), refsStr(used), refsStr(need), strings.Join(exempt, ", "), strings.Join(mutPos, ", "))
+			shape := a.shapeText(ret, 0)
+			for _, m := range p.muts {
+				shape += fmt.Sprintf(" | $%d.(%s).%s=%s", m.base.I, m.typ, m.field, a.shapeText(m.val, 0))
+			}
+			shape += " | " + strings.Join(p.conds, "&")
+			sum.Shape = shape
+			row := fmt.Sprintf("{ prod := %d, path := %d, n := %d, kind := %d, objs := [%s], used := %s, need := %s, exempt := [%s], mutPos := [%s], shape := %d }",
+				pn, pi, a.n, kind, strings.Join(objRows, ", "), refsStr(used), refsStr(need), strings.Join(exempt, ", "), strings.Join(mutPos, ", "), c.intern("shape:"+shape))
 			rows = append(rows, row)
 			sums = append(sums, sum)
 		}
